@@ -411,3 +411,26 @@ PROPS["C11"] = dict(
     level_note="The full 2^32 space of 4-character groups is covered by class representatives (24/40-character alphabets), not enumerated; texts containing '=' are only required to be rejected when a foreign byte precedes the '=' or the length is 1 mod 4.",
     design_ref="DESIGN.md section 7, C11",
 )
+
+
+PROPS["C17"] = dict(
+    level="fault_enumeration", exhaustive=True,
+    stages=lambda tier, seed: [mc("scenarios", "MC_C17", "MC_C17_%s.cfg" % tier, dopts=dict(extra=("--fault",), timeout=60), target_ops=1)],
+    rule="scenarios are behaviours of the specification printed by TLC from MC_C17: loading each key type through "
+         "several entry points (incl. a defective key, a non-JSON text, find/free_bad/item_free), builder scenarios "
+         "(claims and headers of every value type incl. JSON merge and getters, time offsets, callbacks setting "
+         "claims or the key, HS256/RS256/ES256/EdDSA/none), checker scenarios (accepting and rejecting tokens: bad "
+         "signature, expired, missing aud, unsigned-with-key; callback reading the token and selecting the key), a "
+         "generate-verify round trip; on OpenSSL (quick; asymmetric checker scenarios also on GnuTLS) / both providers "
+         "(thorough). For each scenario the driver counts the allocation requests N made by libjwt and jansson through "
+         "jwt_set_alloc's allocator inside library calls and re-runs it once per k in 0..N-1 with request k returning "
+         "NULL, each in a forked child under ASan/UBSan, stopping after the operation in which the fault fired and "
+         "then freeing everything. evaluations = judged events; coverage.fault_runs = number of (scenario, k) runs; "
+         "distinct_nontrivial = distinct scenarios.",
+    assumptions=ASSUME_COMMON + ["only allocations routed through jwt_set_alloc (libjwt and jansson) are failed; OpenSSL/GnuTLS internal allocations are not"],
+    level_text="Exhaustive over the fault position k for every scenario: each operation of a faulted run must either "
+               "give the fault-free result (same verdict / same decoded token content / same list) or report failure "
+               "through its documented channel; a crash or sanitizer report in the child is a violation.",
+    level_note="Single fault per run; the scenario ends with the faulted operation (objects are then freed). Leaks on error paths are not judged (C17 does not state them).",
+    design_ref="DESIGN.md section 7, C17",
+)
